@@ -53,24 +53,42 @@ where G: GraphRef + IntoNeighbors + Visitable + NodeIndexable, G::NodeId: std::f
             let ns = a[0] as usize;
             let starts: Vec<G::NodeId> = a[1..1 + ns].iter().map(|i| n(*i)).collect();
             let rules: Vec<(i64, i64, i64)> = a[1 + ns..].chunks(3).filter(|c| c.len() == 3).map(|c| (c[0], c[1], c[2])).collect();
-            let mut evs: Vec<i64> = Vec::new();
-            let r = depth_first_search(g, starts, |ev| {
-                let (k, x, y, key) = match ev {
+            let key_of = |ev: DfsEvent<G::NodeId>| -> (i64, i64, i64, i64) {
+                match ev {
                     DfsEvent::Discover(u, t) => (0, g.to_index(u) as i64, t.0 as i64, g.to_index(u) as i64),
                     DfsEvent::TreeEdge(u, w) => (1, g.to_index(u) as i64, g.to_index(w) as i64, g.to_index(w) as i64),
                     DfsEvent::BackEdge(u, w) => (2, g.to_index(u) as i64, g.to_index(w) as i64, g.to_index(w) as i64),
                     DfsEvent::CrossForwardEdge(u, w) => (3, g.to_index(u) as i64, g.to_index(w) as i64, g.to_index(w) as i64),
                     DfsEvent::Finish(u, t) => (4, g.to_index(u) as i64, t.0 as i64, g.to_index(u) as i64),
-                };
-                evs.extend_from_slice(&[k, x, y]);
-                for (rk, rn, ra) in &rules {
-                    if *rk == k && *rn == key { return match ra { 1 => Control::Prune, 2 => Control::Break(()), _ => Control::Continue }; }
                 }
-                Control::Continue
+            };
+            let action = |k: i64, key: i64| -> i64 { for (rk, rn, ra) in &rules { if *rk == k && *rn == key { return *ra; } } 0 };
+            let mut evs: Vec<i64> = Vec::new();
+            let r = depth_first_search(g, starts.clone(), |ev| {
+                let (k, x, y, key) = key_of(ev);
+                evs.extend_from_slice(&[k, x, y]);
+                match action(k, key) { 1 => Control::Prune, 2 => Control::Break(()), _ => Control::Continue }
             });
             let brk = matches!(r, Control::Break(_)) as i64;
+            // the same visitor through the other ControlFlow implementations: Result<Control, E> must honour Ok(Break) and Ok(Prune)
+            // exactly like the bare Control, and Err(e) must stop the search like a Break
+            let mut evs1: Vec<i64> = Vec::new();
+            let r1: Result<Control<()>, i64> = depth_first_search(g, starts.clone(), |ev| {
+                let (k, x, y, key) = key_of(ev);
+                evs1.extend_from_slice(&[k, x, y]);
+                Ok(match action(k, key) { 1 => Control::Prune, 2 => Control::Break(()), _ => Control::Continue })
+            });
+            let mut evs2: Vec<i64> = Vec::new();
+            let r2: Result<Control<()>, i64> = depth_first_search(g, starts, |ev| {
+                let (k, x, y, key) = key_of(ev);
+                evs2.extend_from_slice(&[k, x, y]);
+                match action(k, key) { 1 => Ok(Control::Prune), 2 => Err(7), _ => Ok(Control::Continue) }
+            });
+            let same = evs1 == evs && evs2 == evs
+                && matches!(r1, Ok(Control::Break(_))) == (brk == 1) && r1.is_ok()
+                && matches!(r2, Err(7)) == (brk == 1);
             let mut v = vec![brk]; v.extend(evs);
-            line("events", &v)
+            line(if same { "events" } else { "events-result-visitor-mismatch" }, &v)
         }
         "has_path" => line("bool", &[algo::has_path_connecting(g, n(a[0]), n(a[1]), None) as i64]),
         "bipartite" => line("bool", &[algo::is_bipartite_undirected(g, n(a[0])) as i64]),
@@ -273,6 +291,7 @@ pub fn run_enc(stream: &str, id: usize, a: &AbsGraph, enc: usize, r: &mut Rng, o
             else { let g = build_matrix::<Undirected, u16>(a, r); run_out_only!(stream, &g, |_e| 0, g.edge_count(), 0, id, enc, r, out, false) }
         }
         7 => { macro_rules! go { ($t:ty) => {{ let g0 = build_graph::<$t, u32>(a, r); let g = Reversed(&g0); run_both!(stream, g, |e| e.id().index(), g0.edge_count(), g0.edge_bound(), id, enc, r, out, true) }}; } ty!(go, Directed, Undirected) }
+        9 => { macro_rules! go { ($t:ty) => {{ let g = plain_graph::<$t>(a); run_both!(stream, &g, |e| e.id().index(), g.edge_count(), g.edge_bound(), id, 0usize, r, out, true, |q: &GOp| condense(&g, q)) }}; } ty!(go, Directed, Undirected) }
         _ => { macro_rules! go { ($t:ty) => {{
                    let g0 = build_graph::<$t, u32>(a, r);
                    let mask = r.next();
@@ -285,6 +304,23 @@ pub fn run_enc(stream: &str, id: usize, a: &AbsGraph, enc: usize, r: &mut Rng, o
 pub fn gen(stream: &str, seed: u64, n: usize, out: &mut Out) {
     let mut r = Rng::new(seed ^ if stream == "C09" { 0xC09 } else { 0xC08 });
     for id in 0..n {
+        if stream == "C09" && r.chance(6) {
+            // union-find stress: edges in tournament order build a binomial tree of depth 3 or 4 inside connected_components /
+            // min_spanning_tree (path compression then matters); 8 or 16 nodes, sometimes two copies, an isolated node, a relabelling
+            let k = 3 + r.below(2); let m = 1usize << k;
+            let mut es: Vec<(usize, usize, i64)> = Vec::new();
+            if r.chance(50) { let mut size = 2; while size <= m { let mut b = 0; while b < m { es.push((b + size - 1, b + size / 2 - 1, 1)); b += size; } size *= 2; } }
+            else { fn rec(lo: usize, size: usize, es: &mut Vec<(usize, usize, i64)>) { if size < 2 { return; } rec(lo, size / 2, es); rec(lo + size / 2, size / 2, es); es.push((lo + size - 1, lo + size / 2 - 1, 1)); } rec(0, m, &mut es); }
+            let mut n = m;
+            if r.chance(30) { let extra: Vec<_> = es.iter().map(|e| (e.0 + m, e.1 + m, 1)).collect(); es.extend(extra); n = 2 * m; }
+            if r.chance(40) { n += 1; }
+            if r.chance(40) { for e in es.iter_mut() { if r.chance(50) { *e = (e.1, e.0, e.2); } } }
+            if r.chance(35) { let mut p: Vec<usize> = (0..n).collect(); shuffle(&mut r, &mut p); for e in es.iter_mut() { *e = (p[e.0], p[e.1], e.2); } }
+            let a = AbsGraph { directed: r.chance(50), n, edges: es };
+            out.stat("kind_unionfind_tournament");
+            run_enc(stream, id, &a, 9, &mut r, out);
+            continue;
+        }
         let simple = r.chance(40);
         let nmax = if stream == "C09" { 10 } else { 9 };
         let a = gen_abs(&mut r, nmax, simple, true, 0, 20);
